@@ -54,6 +54,8 @@ def cases(draw, tier):
             elif r < 7:
                 steps.append({'op': 'citer', 's': 0, 'n': draw(st.sampled_from([None, None, 1, 2, 3])),
                               'gap': draw(st.sampled_from([None, None, 0.5, 1, 2, 'tick']))})
+                if draw(st.integers(0, 3)) == 0:
+                    steps[-1]['explicit'] = True       # iterator object kept in a variable, anext() per step
                 if draw(st.integers(0, 4)) == 0:
                     # a second subscription of the same activity while it is iterating
                     steps[-1]['body'] = [{'op': 'cget', 's': 0}] if draw(st.booleans()) else [{'op': 'citer', 's': 0, 'n': draw(st.integers(1, 2))}]
